@@ -493,4 +493,65 @@ func init() {
 		jn.wait()
 		vt.WaitIdle()
 	})
+
+	// resumebatch: submissions (single and batches) that begin while the worker is paused or
+	// stopped and are still going on when Resume / Restart runs. Everything accepted is processed
+	// without further prompting (C09: pending jobs survive and resume; C03).
+	registerFamily("resumebatch", []string{"C09", "C03", "C01"}, func(e *env) {
+		r := vt.Rand()
+		e.kind = e.p("kind", r.Intn(3))
+		e.conc = e.p("conc", 1+r.Intn(3))
+		e.mkWorker()
+		q := e.bind(pick(r, qFifo, qPrio))
+		if r.Intn(2) == 0 {
+			e.add(q, 0, oOK, false, "")
+		}
+		halt := []string{"Pause", "PauseAndWait", "Stop"}[r.Intn(3)]
+		e.lifecycle(halt, 0)
+		// directed half: the producer is held inside its batch, after k items, until the worker
+		// has been resumed and has worked off what was there
+		directed := r.Intn(2) == 0
+		producer, phase, base, k := -1, 1, recEnqCount, 1+r.Intn(2)
+		if directed {
+			e.p("directed", 1)
+			vt.Hold(func(tid, site int, kind string) bool {
+				n := siteName(site)
+				return phase == 1 && tid == producer && kind == "lock" && recEnqCount-base >= k &&
+					(strings.HasPrefix(n, "Queue.Enqueue/") || strings.HasPrefix(n, "PriorityQueue.Enqueue/"))
+			})
+		}
+		var jn joiner
+		jn.goClient("producer", func() {
+			producer = vt.Cur().ID
+			var specs []itemSpec
+			for i, n := 0, 2+r.Intn(5); i < n; i++ {
+				specs = append(specs, itemSpec{prio: r.Intn(3), outcome: oOK})
+			}
+			e.addAll(q, specs)
+			if r.Intn(2) == 0 {
+				e.add(q, 0, oOK, false, "")
+			}
+		})
+		jn.goClient("resumer", func() {
+			if directed {
+				vt.WaitIdle() // the producer sits inside its batch
+			} else {
+				for k := r.Intn(10); k > 0; k-- {
+					vt.Yield()
+				}
+			}
+			if halt == "Stop" {
+				e.lifecycle("Restart", 0)
+			} else {
+				e.lifecycle("Resume", 0)
+			}
+			if directed {
+				vt.WaitIdle() // the resumed worker has worked off the first k items and sleeps
+				phase = 2
+			}
+		})
+		jn.wait()
+		vt.WaitIdle()
+		e.takeFinalCounts()
+	})
 }
